@@ -170,7 +170,7 @@ type phoutCase struct {
 	Buffer   int   `json:"buffer_bytes"`
 	CancelUs int   `json:"cancel_after_last_report_us"` // −1: Gosched only, 0: immediately
 	LateRun  bool  `json:"run_started_after_first_reports"`
-	Pad      int   `json:"pad_bytes,omitempty"` // boundary sweeps: every tag is padded to this length
+	Pad      int   `json:"pad_bytes,omitempty"`   // boundary sweeps: every tag is padded to this length
 	GapMs    int   `json:"idle_gap_ms,omitempty"` // every goroutine pauses this long after its first third of reports
 	Seed     int64 `json:"seed"`
 }
@@ -534,12 +534,15 @@ func (g *repGun) Shoot(core.Ammo) {
 }
 
 type engCase struct {
-	Instances int   `json:"instances"`
-	Tokens    int   `json:"tokens"`
-	ShotUs    int   `json:"shot_us"`
-	Queue     int   `json:"queue"`
-	CancelAt  int   `json:"cancel_after_reports"` // 0 = run to the end
-	Seed      int64 `json:"seed"`
+	Instances int `json:"instances"`
+	Tokens    int `json:"tokens"`
+	ShotUs    int `json:"shot_us"`
+	Queue     int `json:"queue"`
+	CancelAt  int `json:"cancel_after_reports"` // 0 = run to the end
+	// Discard > 0: discard_overflow on and a const schedule of Tokens tokens per second for 1 s that
+	// was started Discard ms ago, so the first tokens are ≥ 2 s late (discarded), the rest are fired.
+	Discard int   `json:"discard_prestart_ms,omitempty"`
+	Seed    int64 `json:"seed"`
 }
 
 func engineOnce(res *vkit.Result, c engCase) {
@@ -559,6 +562,12 @@ func engineOnce(res *vkit.Result, c engCase) {
 		},
 		NewRPSSchedule:  func() (core.Schedule, error) { return schedule.NewOnce(int64(c.Tokens)), nil },
 		StartupSchedule: schedule.NewOnce(int64(c.Instances))}
+	if c.Discard > 0 {
+		shared := schedule.NewConst(float64(c.Tokens), time.Second)
+		shared.Start(time.Now().Add(-time.Duration(c.Discard) * time.Millisecond))
+		pool.NewRPSSchedule = func() (core.Schedule, error) { return shared, nil }
+		pool.DiscardOverflow = true
+	}
 	eng := engine.New(vkit.NopLog(), vkit.NewMetrics(), engine.Config{Pools: []engine.InstancePoolConfig{pool}})
 	ctx, cancel := context.WithCancel(context.Background())
 	defer cancel()
@@ -605,7 +614,27 @@ ended:
 		if rerr != nil {
 			res.Violate("C06/engine/run-error", fmt.Sprintf("normal run returned %v", rerr), c)
 		}
-		if int64(len(recs)) != completed || completed != int64(c.Tokens) {
+		if c.Discard > 0 {
+			// every token is one line: a shot line of the gun, or a 'discarded' line with net code 777
+			disc := 0
+			var shots []phoutRec
+			for _, r := range recs {
+				if strings.HasPrefix(r.Tag, "discarded#") {
+					disc++
+					if r.Fields[8] != 777 {
+						res.Violate("C06/engine/discarded-line", fmt.Sprintf("discarded line written with net code %d, want 777: %v", r.Fields[8], r), c)
+					}
+				} else {
+					shots = append(shots, r)
+				}
+			}
+			if int64(len(shots)) != completed || int64(disc)+completed != int64(c.Tokens) {
+				res.Violate("C06/engine/discard-count", fmt.Sprintf("%d tokens, the gun reported %d shots: the output has %d shot lines and %d 'discarded' lines (want %d and %d)", c.Tokens, completed, len(shots), disc, completed, int64(c.Tokens)-completed), c)
+			}
+			res.Count("engine_runs_discard", 1)
+			res.Count("engine_discarded_lines", int64(disc))
+			recs = shots
+		} else if int64(len(recs)) != completed || completed != int64(c.Tokens) {
 			res.Violate("C06/engine/count", fmt.Sprintf("run ended normally: %d tokens, %d reports made, %d lines in the output after Engine.Run returned", c.Tokens, completed, len(recs)), c)
 		}
 		res.Count("engine_runs_normal", 1)
@@ -933,6 +962,9 @@ func main() {
 	}
 	engineOnce(res, engCase{Instances: 4, Tokens: 400, ShotUs: 0, Queue: 16, CancelAt: 0, Seed: 31})
 	engineOnce(res, engCase{Instances: 4, Tokens: 100000, ShotUs: 0, Queue: 1024, CancelAt: 300, Seed: 32})
+	// overload: tokens of the first 1.2 s of a 3.2 s-old schedule are discarded while guns keep acquiring samples
+	engineOnce(res, engCase{Instances: 6, Tokens: 3000, ShotUs: 200, Queue: 4096, Discard: 3200, Seed: 33})
+	engineOnce(res, engCase{Instances: 2, Tokens: 800, ShotUs: 50, Queue: 64, Discard: 2600, Seed: 34})
 	for i, n := 0, vkit.N(40, 600); i < n; i++ {
 		c := engCase{Instances: 1 + rng.Intn(12), Tokens: 50 + rng.Intn(800), ShotUs: []int{0, 0, 10, 100}[rng.Intn(4)],
 			Queue: []int{1, 4, 64, 4096}[rng.Intn(4)], Seed: rng.Int63()}
